@@ -1112,7 +1112,12 @@ fn ingress_interleaved(idx: u64, rng: &mut Rng, ctx: &Ctx) -> CaseOut {
     let cfg = NetCfg { ethernet, ip_mtu: 1500 };
     let mut host = make_host(&cfg, rng.next_u64(), 0);
     let tag = rng.next_u64();
-    let peer = peers()[rng.usize_below(3)].clone();
+    let pi = rng.usize_below(3);
+    let peer = peers()[pi].clone();
+    // in a third of the cases the two datagrams come from two different hosts that happen to use
+    // the same identification: the reassembly key must keep them apart by source address
+    let two_senders = rng.chance(1, 3);
+    let peer_b = if two_senders { peers()[(pi + 1) % 3].clone() } else { peer.clone() };
     let dst = host_addr(false);
     let id0 = rng.u16();
     struct D {
@@ -1141,8 +1146,9 @@ fn ingress_interleaved(idx: u64, rng: &mut Rng, ctx: &Ctx) -> CaseOut {
         // zero checksum most of the time: a mixture must not be saved by the UDP checksum
         let with_ck = rng.chance(1, 4);
         let sport = 9000 + d as u16;
-        let l4 = iudp::build(&peer.v4, &dst, sport, 5000, &pl, with_ck);
-        let inb = Inbound { src: peer.v4, dst, proto: ip::PROTO_UDP, hop: 64, l4, src_mac: peer.link_mac() };
+        let from = if d == 0 { &peer } else { &peer_b };
+        let l4 = iudp::build(&from.v4, &dst, sport, 5000, &pl, with_ck);
+        let inb = Inbound { src: from.v4, dst, proto: ip::PROTO_UDP, hop: 64, l4, src_mac: from.link_mac() };
         let mut cuts = Vec::new();
         let mut offs = vec![0usize];
         let mut o = 0;
@@ -1151,7 +1157,7 @@ fn ingress_interleaved(idx: u64, rng: &mut Rng, ctx: &Ctx) -> CaseOut {
             cuts.push(o);
             offs.push(o);
         }
-        let frames = match frames_for(&cfg, &inb, id0.wrapping_add(d as u16), &cuts) {
+        let frames = match frames_for(&cfg, &inb, if two_senders { id0 } else { id0.wrapping_add(d as u16) }, &cuts) {
             Ok(f) => f,
             Err(e) => {
                 out.harness_errors.push(format!("cannot fragment: {}", e));
@@ -1213,12 +1219,13 @@ fn ingress_interleaved(idx: u64, rng: &mut Rng, ctx: &Ctx) -> CaseOut {
     host.poll(now);
     let describe = |ds: &Vec<D>, what: &str| -> String {
         format!(
-            "{} ; two UDP datagrams {} -> {}:5000 with identifications {:#06x}/{:#06x}: A = {} L4 bytes in fragments {:?}, B = {} L4 bytes in fragments {:?}; arrival order [{}] ({}); reassembly slots {}, range limit {}",
+            "{} ; two UDP datagrams {} / {} -> {}:5000 with identifications {:#06x}/{:#06x}: A = {} L4 bytes in fragments {:?}, B = {} L4 bytes in fragments {:?}; arrival order [{}] ({}); reassembly slots {}, range limit {}",
             what,
             peer.v4,
+            peer_b.v4,
             dst,
             id0,
-            id0.wrapping_add(1),
+            if two_senders { id0 } else { id0.wrapping_add(1) },
             ds[0].l4len,
             ds[0].sizes,
             ds[1].l4len,
